@@ -15,7 +15,8 @@ def handle : List String → Option String
     let model := signature k pre seqs
     let r1 := expect (natsOf spec ++ ":" ++ optNatOf (indexDtypeBytes k)) (real ++ ":" ++ dt)
     if r1 != "ok" then pure r1 else
-    pure (if model == spec then "ok" else s!"FAIL model/spec disagree model={natsOf model}")
+    if model != spec then pure s!"FAIL model/spec disagree model={natsOf model}" else
+    pure ((PyGen.calcSignature k pre seqs real).getD "ok")
   -- c01.find k prefix seq fwdPositions revPositions : positions reported by find_kmers
   | ["c01.find", k, pre, s, fwd, rev] => do
     let k ← k.toNat?
